@@ -20,11 +20,12 @@ def reset():
 
 
 def set_size(size: int):
-    for cached in _cached:
-        wrapped = cached.__wrapped__
-        setattr(
-            sys.modules[wrapped.__module__], wrapped.__name__, lru_cache(size)(wrapped)
-        )
+    for wrapped in list(dict.fromkeys(cached.__wrapped__ for cached in _cached)):
+        cached = lru_cache(size)(wrapped)
+        # keep track of the new wrapper, otherwise reset() only clears the old ones
+        # (which must still be cleared: modules that imported them keep calling them)
+        _cached.append(cached)
+        setattr(sys.modules[wrapped.__module__], wrapped.__name__, cached)
 
 
 K = TypeVar("K")
